@@ -132,6 +132,9 @@ func genHostile(front string) func(t *rapid.T) hostileCase {
 			switch {
 			case k == 0:
 				st = gwgen.Adv(int64(rapid.SampledFrom([]int{1, 2, 50, 101, 1100, 5200}).Draw(t, "adv")))
+			case front == "client" && k == 1:
+				// a duplicated datagram: one of the client's last three (its automatic acknowledgements included)
+				st = gwsim.Step{K: "snrepeat", D: int64(rapid.IntRange(1, 3).Draw(t, "repeat"))}
 			case (front == "client" && k < 7) || (front == "broker" && k < 4):
 				st = gwgen.SN(genAnySN(t))
 			case front == "client" && k < 9:
@@ -181,7 +184,7 @@ func runHostile(c hostileCase) (r vf.Result) {
 func TestC25Client(t *testing.T) {
 	vf.Check(t, vf.Prop[hostileCase]{
 		ID: "C25", Name: "hostile-client-to-gateway", Bubble: true, MarkCurrent: true,
-		Rule: "1-40 decodable packets from a hostile MQTT-SN client over all 28 types with generated fields (message and topic IDs from small pools so that they hit live exchanges, reserved topic-ID type, QoS 3, zero and maximal durations, sleep/wake), interleaved with well-formed broker publishes (so that broker-initiated exchanges are open), time advances around the retry and poll periods and same-instant injections on both links; retry delays down to 1 ms. Non-trivial = at least one packet arrives that the happy path does not expect in that state (any type other than CONNECT/PUBLISH/SUBSCRIBE/REGISTER/PINGREQ/DISCONNECT); distinct by script.",
+		Rule: "1-40 decodable packets from a hostile MQTT-SN client over all 28 types with generated fields (message and topic IDs from small pools so that they hit live exchanges, reserved topic-ID type, QoS 3, zero and maximal durations, sleep/wake), and repetitions of one of the client's last three datagrams (its automatic REGACK/PUBACK/PUBREC/PUBCOMP replies included), interleaved with well-formed broker publishes (so that broker-initiated exchanges are open), time advances around the retry and poll periods and same-instant injections on both links; retry delays down to 1 ms. Non-trivial = at least one packet arrives that the happy path does not expect in that state (any type other than CONNECT/PUBLISH/SUBSCRIBE/REGISTER/PINGREQ/DISCONNECT); distinct by script.",
 		Assumptions: []string{"oracle: the test process survives the case (a panic in any session goroutine kills it); a clean error or termination of the session passes"},
 		Gen:         genHostile("client"),
 		Run:         runHostile,
